@@ -46,6 +46,10 @@ def getter_of(b, l, depth=0):
         p = d[3][1][1] if d[3][0] == "use" and d[3][1][0] in ("c", "m") else (d[3][2] if d[3][0] == "ref" else None)
         if p is not None and all(e == "*" for e in p[1]):
             return getter_of(b, p[0], depth + 1)
+    if d[0] == "s" and d[3][0] == "agg" and d[3][1][0] == "adt" and d[3][1][3] == "Some" and len(d[3][2]) == 1:
+        l2 = op_local(d[3][2][0])          # Some(x.validity())
+        if l2 is not None:
+            return getter_of(b, l2, depth + 1)
     return None
 
 
@@ -78,6 +82,7 @@ def check(ck, F, rule, crates, floor):
 # callee (generic-stripped suffix) -> [(buffer argument index, bit-offset argument index)]
 CROSS = {
     "bit_mask::set_bits": [(0, 2), (1, 3)],
+    "bit_iterator::try_for_each_valid_idx": [(3, 1)],
 }
 
 
